@@ -261,6 +261,29 @@ func (g *gateSel) UpdateServer(servers map[string]string) {
 
 var modes = []client.SelectMode{client.RandomSelect, client.RoundRobin, client.WeightedRoundRobin, client.ConsistentHash}
 
+// publish hands a snapshot to the discovery.  inPlace: when the snapshot names the same servers as the one published
+// before, the caller edits the records it published (the slice GetServices returns) and publishes them again - a
+// registry client that keeps one record per server does exactly that.
+func publish(d *client.MultipleServersDiscovery, next []*client.KVPair, inPlace bool) {
+	if inPlace {
+		cur := d.GetServices()
+		same := len(cur) == len(next) && len(cur) > 0
+		for i := range cur {
+			if same && cur[i].Key != next[i].Key {
+				same = false
+			}
+		}
+		if same {
+			for i := range cur {
+				cur[i].Value = next[i].Value
+			}
+			d.Update(cur)
+			return
+		}
+	}
+	d.Update(next)
+}
+
 // waitServers waits until the client holds exactly the servers [want] WITH the metadata of [last] (the watch loop
 // replaces the set and updates the selector under one lock, so the selector has then seen this snapshot too)
 func waitServers(xc client.XClient, want []string, last snap) bool {
@@ -326,7 +349,7 @@ func c14History(o *common.Out, id string, r *common.Rand, group string, mode int
 		}
 		first := true
 		for k := 0; k < b && idx < len(hist); k++ {
-			d.Update(hist[idx].pairs())
+			publish(d, hist[idx].pairs(), !stall && idx%2 == 0)
 			model = append(model, fmt.Sprintf("P%d", idx))
 			if stall && first {
 				// the watch loop takes the first snapshot of the burst and stalls applying it
